@@ -363,9 +363,17 @@ class SFTPFile(BufferedFile):
         self.sftp._log(
             DEBUG, "truncate({}, {!r})".format(hexlify(self.handle), size)
         )
+        # buffered writes happened before the truncation: send them first
+        self.flush()
         attr = SFTPAttributes()
         attr.st_size = size
         self.sftp._request(CMD_FSETSTAT, self.handle, attr)
+        # data read ahead may lie beyond the new end of the file
+        self._rbuffer = bytes()
+        self._realpos = self._pos
+        if self._flags & self.FLAG_APPEND:
+            # appends now start at the new end of the file
+            self._size = size
 
     def check(self, hash_algorithm, offset=0, length=0, block_size=0):
         """
